@@ -139,6 +139,12 @@ type analyzer struct {
 	// cursorParam: int parameters that every call site fills with <parser>.tokenIndex + c
 	// (offset c); -1<<20 marks a parameter that some call site fills with something else
 	cursorParam map[*types.Func]map[int]int
+	// tiny parser methods, inlined at the abstract level
+	bind       map[types.Object]ast.Expr // parameters of the tiny method being expanded -> caller's arguments
+	collectNow bool                      // checkSites collects callee entry facts (short-circuit aware)
+	pure       map[*types.Func]bool      // never assigns a cursor or token slice (transitively)
+	shift      map[*types.Func]int       // body is exactly `recv.tokenIndex += k`
+	inlining   int
 }
 
 const notCursor = -1 << 20
@@ -250,11 +256,14 @@ func (an *analyzer) tokenRef(st *tstate, e ast.Expr) (string, int, bool) {
 				return a.pair, a.c, true
 			}
 		}
+	case *ast.CallExpr:
+		return an.tinyTokenRef(x)
 	}
 	return "", 0, false
 }
 
 func (an *analyzer) nonEOFConst(e ast.Expr) bool {
+	e = an.resolveBound(e)
 	tv, ok := an.info.Types[e]
 	if !ok || tv.Value == nil {
 		return false
@@ -266,6 +275,7 @@ func (an *analyzer) nonEOFConst(e ast.Expr) bool {
 	return !constant.Compare(tv.Value, token.EQL, an.eofVal)
 }
 func (an *analyzer) isEOFConst(e ast.Expr) bool {
+	e = an.resolveBound(e)
 	tv, ok := an.info.Types[e]
 	if !ok || tv.Value == nil {
 		return false
@@ -379,6 +389,10 @@ func (an *analyzer) refine(st *tstate, cond ast.Expr, val bool) {
 			}
 		}
 	case *ast.CallExpr:
+		// p.atEnd(), p.at(kind), …: expand the method's single returned expression
+		if an.refineThroughTiny(st, x, val) {
+			return
+		}
 		// kind predicates
 		if f := an.w.callee(x); f != nil && val && an.nonEOFPred[f] && len(x.Args) == 1 {
 			if sel, ok := ast.Unparen(x.Args[0]).(*ast.SelectorExpr); ok && sel.Sel.Name == "Type" {
@@ -420,6 +434,9 @@ func (an *analyzer) checkSites(st *tstate, n ast.Node, fn string, doReport bool)
 			an.refine(st2, be.X, be.Op == token.LAND)
 			an.checkSites(st2, be.Y, fn, doReport)
 			return false
+		}
+		if c, ok := m.(*ast.CallExpr); ok && an.collectNow {
+			an.collectEntryAt(st, c)
 		}
 		var sl, idx ast.Expr
 		switch x := m.(type) {
@@ -499,60 +516,20 @@ func (an *analyzer) effects(st *tstate, n ast.Node) {
 			continue
 		}
 		callee := an.calleeOf(c)
-		if an.collectEntry {
-			var targets []*types.Func
-			if callee != nil {
-				targets = append(targets, callee)
-			} else { // dynamic: handler call
-				for h := range an.handlers {
-					targets = append(targets, h)
-				}
-			}
-			for _, t := range targets {
-				if _, ok := an.funcs[t]; !ok {
+		// pure callees change nothing; exact shifts move the facts exactly
+		if callee != nil && an.pure[callee] {
+			continue
+		}
+		if callee != nil {
+			if k, ok := an.shift[callee]; ok {
+				if cr, _, ok := an.callReceiver(c); ok {
+					an.shiftBase(st, cr+".tokenIndex", k)
+					for o, a := range st.a {
+						if strings.Contains(a.pair, ".tokenIndex") {
+							delete(st.a, o)
+						}
+					}
 					continue
-				}
-				// integer arguments that are the cursor (+ constant): the callee may index with them
-				if callee != nil {
-					if an.cursorParam == nil {
-						an.cursorParam = map[*types.Func]map[int]int{}
-					}
-					if an.cursorParam[t] == nil {
-						an.cursorParam[t] = map[int]int{}
-					}
-					for ai, a := range c.Args {
-						bt, ok := an.info.TypeOf(a).Underlying().(*types.Basic)
-						if !ok || bt.Info()&types.IsInteger == 0 {
-							continue
-						}
-						b, off := an.decomp(a)
-						val := notCursor
-						if strings.HasSuffix(b, ".tokenIndex") {
-							if _, has := st.f[tiPairkey(strings.TrimSuffix(b, ".tokenIndex")+".tokens", b)]; has {
-								val = off
-							}
-						}
-						if old, seen := an.cursorParam[t][ai]; !seen {
-							an.cursorParam[t][ai] = val
-							an.changedEntry = true
-						} else if old != val && old != notCursor {
-							an.cursorParam[t][ai] = notCursor
-							an.changedEntry = true
-						}
-					}
-				}
-				// canonicalize: take best tfact among parser cursors
-				cs := an.canon(st)
-				old := an.entry[t]
-				var nw *tstate
-				if old == nil {
-					nw = cs
-				} else {
-					nw = tiJoin(old, cs)
-				}
-				if old == nil || !tiEq(old, nw) {
-					an.entry[t] = nw
-					an.changedEntry = true
 				}
 			}
 		}
@@ -648,6 +625,10 @@ func (an *analyzer) effects(st *tstate, n ast.Node) {
 					if ix, ok := ast.Unparen(rhs).(*ast.IndexExpr); ok && an.isTokSlice(ix.X) {
 						b, c := an.decomp(ix.Index)
 						st.a[o] = talias{tiPairkey(tiEs(ix.X), b), c}
+					} else if call, ok := ast.Unparen(rhs).(*ast.CallExpr); ok {
+						if pair, c, ok := an.tinyTokenRef(call); ok {
+							st.a[o] = talias{pair, c}
+						}
 					}
 				}
 			}
@@ -826,10 +807,10 @@ func (an *analyzer) analyze(fn *types.Func, decl *ast.FuncDecl, entry tfact, doR
 		}
 		st := in[bi].clone()
 		for _, n := range b.Nodes {
+			an.collectNow = prev && doReport
 			an.checkSites(st, n, name, doReport)
-			an.collectEntry = prev && doReport
+			an.collectNow = false
 			an.effects(st, n)
-			an.collectEntry = false
 		}
 		if len(b.Succs) == 0 {
 			// exit block: check returns only when last node is a ReturnStmt with nil error or function end
@@ -974,6 +955,8 @@ func checkTokenIndex(w *World, r *Report) {
 
 	// R05.1s: every tokenizer that hands tokens to the parser ends the stream with TOKEN_EOF
 	an.checkSentinel(r)
+
+	an.computeTinySummaries()
 
 	// 1. summaries (greatest fixed points): preserves idx<len, and never lowers the cursor
 	for changed := true; changed; {
@@ -1263,4 +1246,296 @@ func addsTokens(fn *ssa.Function, seen map[*ssa.Function]bool) bool {
 		}
 	})
 	return found
+}
+
+// ---------------------------------------------------------------- tiny cursor methods
+//
+// A parser written with cursor helpers — p.atEnd(), p.peek(), p.at(kind), p.advance() — has the
+// same index discipline as one that spells the expressions out.  Methods whose body is a single
+// `return <expr>` are expanded at the abstract level: the caller's facts are renamed to the
+// method's receiver, its parameters are bound to the caller's arguments, the expression is
+// refined in that naming, and the facts are renamed back.  Methods whose body is a single
+// constant increment of the cursor shift the facts exactly.
+
+// tinyReturn: the method's receiver name, its parameter objects and the single returned expression.
+func (an *analyzer) tinyReturn(f *types.Func) (recv string, params []types.Object, e ast.Expr, ok bool) {
+	d := an.funcs[f]
+	if d == nil || d.Body == nil || len(d.Body.List) != 1 || d.Recv == nil || len(d.Recv.List) != 1 || len(d.Recv.List[0].Names) != 1 {
+		return "", nil, nil, false
+	}
+	ret, isRet := d.Body.List[0].(*ast.ReturnStmt)
+	if !isRet || len(ret.Results) != 1 || !an.isParserExpr(d.Recv.List[0].Names[0]) {
+		return "", nil, nil, false
+	}
+	for _, fl := range d.Type.Params.List {
+		for _, n := range fl.Names {
+			params = append(params, an.info.Defs[n])
+		}
+	}
+	return d.Recv.List[0].Names[0].Name, params, ret.Results[0], true
+}
+
+// callReceiver: for recv.m(args) with a *Parser receiver: the receiver's spelling and the callee.
+func (an *analyzer) callReceiver(c *ast.CallExpr) (string, *types.Func, bool) {
+	sel, ok := ast.Unparen(c.Fun).(*ast.SelectorExpr)
+	if !ok || !an.isParserExpr(sel.X) {
+		return "", nil, false
+	}
+	f, _ := an.info.Uses[sel.Sel].(*types.Func)
+	if f == nil {
+		return "", nil, false
+	}
+	return tiEs(sel.X), f, true
+}
+
+func renameFacts(st *tstate, from, to string) *tstate {
+	if from == to {
+		return st
+	}
+	n := &tstate{f: map[string]tfact{}, a: map[types.Object]talias{}, top: st.top}
+	for k, v := range st.f {
+		parts := strings.SplitN(k, "|", 2)
+		if len(parts) == 2 && strings.HasPrefix(parts[0], from+".") && strings.HasPrefix(parts[1], from+".") {
+			n.f[to+strings.TrimPrefix(parts[0], from)+"|"+to+strings.TrimPrefix(parts[1], from)] = v
+		}
+	}
+	return n
+}
+
+// refineThroughTiny: cond is a call of a tiny bool method; refine st by its body being val.
+func (an *analyzer) refineThroughTiny(st *tstate, c *ast.CallExpr, val bool) bool {
+	cr, f, ok := an.callReceiver(c)
+	if !ok || an.inlining > 4 {
+		return false
+	}
+	rn, params, e, ok := an.tinyReturn(f)
+	if !ok {
+		return false
+	}
+	inner := renameFacts(st, cr, rn)
+	saved := an.bind
+	nb := map[types.Object]ast.Expr{}
+	for k, v := range saved {
+		nb[k] = v
+	}
+	for i, p := range params {
+		if i < len(c.Args) && p != nil {
+			nb[p] = an.resolveBound(c.Args[i])
+		}
+	}
+	an.bind = nb
+	an.inlining++
+	an.refine(inner, e, val)
+	an.inlining--
+	an.bind = saved
+	if cr == rn {
+		return true
+	}
+	back := renameFacts(inner, rn, cr)
+	for k, v := range back.f {
+		old := st.get(k)
+		st.f[k] = tfact{tiMax(old.ub, v.ub), tiMax(old.lb, v.lb)}
+	}
+	return true
+}
+
+// resolveBound: an argument that is itself a parameter of an enclosing tiny method stands for
+// what that parameter is bound to.
+func (an *analyzer) resolveBound(e ast.Expr) ast.Expr {
+	if id, ok := ast.Unparen(e).(*ast.Ident); ok && an.bind != nil {
+		if o := an.info.ObjectOf(id); o != nil {
+			if b, ok := an.bind[o]; ok {
+				return b
+			}
+		}
+	}
+	return e
+}
+
+// tinyTokenRef: recv.peek() where peek returns recv.tokens[recv.tokenIndex+c].
+func (an *analyzer) tinyTokenRef(c *ast.CallExpr) (string, int, bool) {
+	cr, f, ok := an.callReceiver(c)
+	if !ok {
+		return "", 0, false
+	}
+	rn, _, e, ok := an.tinyReturn(f)
+	if !ok {
+		return "", 0, false
+	}
+	ix, ok := ast.Unparen(e).(*ast.IndexExpr)
+	if !ok || !an.isTokSlice(ix.X) || tiEs(ix.X) != rn+".tokens" {
+		return "", 0, false
+	}
+	b, off := an.decomp(ix.Index)
+	if b != rn+".tokenIndex" {
+		return "", 0, false
+	}
+	return tiPairkey(cr+".tokens", cr+".tokenIndex"), off, true
+}
+
+// computeTinySummaries: pure functions and exact shifts.
+func (an *analyzer) computeTinySummaries() {
+	an.pure = map[*types.Func]bool{}
+	an.shift = map[*types.Func]int{}
+	assignsCursor := func(d *ast.FuncDecl) bool {
+		found := false
+		isCursor := func(e ast.Expr) bool {
+			sel, ok := ast.Unparen(e).(*ast.SelectorExpr)
+			return ok && (sel.Sel.Name == "tokenIndex" || sel.Sel.Name == "tokens") && an.isParserExpr(sel.X)
+		}
+		ast.Inspect(d.Body, func(n ast.Node) bool {
+			switch x := n.(type) {
+			case *ast.AssignStmt:
+				for _, l := range x.Lhs {
+					if isCursor(l) {
+						found = true
+					}
+				}
+			case *ast.IncDecStmt:
+				if isCursor(x.X) {
+					found = true
+				}
+			case *ast.UnaryExpr:
+				if x.Op == token.AND && isCursor(x.X) {
+					found = true
+				}
+			}
+			return !found
+		})
+		return found
+	}
+	for f, d := range an.funcs {
+		an.pure[f] = !assignsCursor(d)
+		// exact shift: the body is one statement recv.tokenIndex++ / += k
+		if d.Recv != nil && len(d.Body.List) == 1 {
+			switch x := d.Body.List[0].(type) {
+			case *ast.IncDecStmt:
+				if sel, ok := x.X.(*ast.SelectorExpr); ok && sel.Sel.Name == "tokenIndex" && an.isParserExpr(sel.X) && x.Tok == token.INC {
+					an.shift[f] = 1
+				}
+			case *ast.AssignStmt:
+				if len(x.Lhs) == 1 && len(x.Rhs) == 1 && x.Tok == token.ADD_ASSIGN {
+					if sel, ok := x.Lhs[0].(*ast.SelectorExpr); ok && sel.Sel.Name == "tokenIndex" && an.isParserExpr(sel.X) {
+						if tv, ok := an.info.Types[x.Rhs[0]]; ok && tv.Value != nil {
+							if k, ok := constant.Int64Val(tv.Value); ok && k > 0 && k < 8 {
+								an.shift[f] = int(k)
+							}
+						}
+					}
+				}
+			}
+		}
+	}
+	for changed := true; changed; {
+		changed = false
+		for f, d := range an.funcs {
+			if !an.pure[f] {
+				continue
+			}
+			impure := false
+			ast.Inspect(d.Body, func(n ast.Node) bool {
+				c, ok := n.(*ast.CallExpr)
+				if !ok || impure {
+					return !impure
+				}
+				touches := false
+				if sel, ok := ast.Unparen(c.Fun).(*ast.SelectorExpr); ok && an.isParserExpr(sel.X) {
+					touches = true
+				}
+				for _, a := range c.Args {
+					if an.isParserExpr(a) {
+						touches = true
+					}
+				}
+				if !touches {
+					return true
+				}
+				g := an.calleeOf(c)
+				if g == nil {
+					impure = true // dynamic call with the parser: a block handler
+					return false
+				}
+				if _, known := an.funcs[g]; known && !an.pure[g] {
+					impure = true
+				}
+				return !impure
+			})
+			if impure {
+				an.pure[f] = false
+				changed = true
+			}
+		}
+	}
+}
+
+// collectEntryAt: the call's callee(s) are entered with the facts that hold here.
+func (an *analyzer) collectEntryAt(st *tstate, c *ast.CallExpr) {
+	touches := false
+	if sel, ok := ast.Unparen(c.Fun).(*ast.SelectorExpr); ok && an.isParserExpr(sel.X) {
+		touches = true
+	}
+	for _, a := range c.Args {
+		if an.isParserExpr(a) {
+			touches = true
+		}
+	}
+	if !touches {
+		return
+	}
+	callee := an.calleeOf(c)
+	var targets []*types.Func
+	if callee != nil {
+		targets = append(targets, callee)
+	} else { // dynamic: handler call
+		for h := range an.handlers {
+			targets = append(targets, h)
+		}
+	}
+	for _, t := range targets {
+		if _, ok := an.funcs[t]; !ok {
+			continue
+		}
+		// integer arguments that are the cursor (+ constant): the callee may index with them
+		if callee != nil {
+			if an.cursorParam == nil {
+				an.cursorParam = map[*types.Func]map[int]int{}
+			}
+			if an.cursorParam[t] == nil {
+				an.cursorParam[t] = map[int]int{}
+			}
+			for ai, a := range c.Args {
+				bt, ok := an.info.TypeOf(a).Underlying().(*types.Basic)
+				if !ok || bt.Info()&types.IsInteger == 0 {
+					continue
+				}
+				b, off := an.decomp(a)
+				val := notCursor
+				if strings.HasSuffix(b, ".tokenIndex") {
+					if _, has := st.f[tiPairkey(strings.TrimSuffix(b, ".tokenIndex")+".tokens", b)]; has {
+						val = off
+					}
+				}
+				if old, seen := an.cursorParam[t][ai]; !seen {
+					an.cursorParam[t][ai] = val
+					an.changedEntry = true
+				} else if old != val && old != notCursor {
+					an.cursorParam[t][ai] = notCursor
+					an.changedEntry = true
+				}
+			}
+		}
+		// canonicalize: take best tfact among parser cursors
+		cs := an.canon(st)
+		old := an.entry[t]
+		var nw *tstate
+		if old == nil {
+			nw = cs
+		} else {
+			nw = tiJoin(old, cs)
+		}
+		if old == nil || !tiEq(old, nw) {
+			an.entry[t] = nw
+			an.changedEntry = true
+		}
+	}
 }
